@@ -4,7 +4,7 @@ import json, os, sys
 V = os.path.dirname(os.path.dirname(os.path.abspath(__file__)))
 props = [json.loads(l) for l in open(os.path.join(V, "properties.jsonl"))]
 
-TB = "Trusted: Go 1.23.5 stdlib, circl v1.3.7, go-hpke, x/crypto, rapid v1.3.0, the harness's reference code in harness/internal/ref. Sampling, not proof: only the sub-domains named exhaustive in the evidence are complete."
+TB = "The generator classes grew through six rounds of independently written breaking changes (DESIGN.md section 11 lists them per round; the per-sub-check rule texts in the evidence files are the authoritative description of what is generated). Trusted: Go 1.23.5 stdlib, circl v1.3.7, go-hpke, x/crypto, rapid v1.3.0, the harness's reference code in harness/internal/ref. Sampling, not proof: only the sub-domains named exhaustive in the evidence are complete."
 
 # id -> (technique, level text, design_ref, extra note)
 CLAIMS = {
